@@ -4,6 +4,7 @@ pub use super::{Reflink, Backup};
 use super::libfs::{
     allocate_file, copy_file_bytes, copy_owner, copy_permissions, copy_timestamps, is_same_file, next_sparse_segments,
     probably_sparse, reflink, sync, FileType, copy_node, copy_file_offset, map_extents, merge_extents, Extent,
+    ext_wf, ext_sorted, ends_le, lemma_mirrors_wf, kext_wf, mirrors,
 };
 
 // ---------------------------------------------------------------- anyhow
@@ -116,10 +117,11 @@ impl CopyHandle {
         &&& self.infd.inode() != self.outfd.inode()
         &&& self.infd.id() != self.outfd.id()
         &&& self.metadata.spec_len() == w.files[self.infd.inode()].bytes.len()
+        &&& self.metadata.spec_len() <= i64::MAX
     }
 }
 /// events a data copy may emit: writes on the destination and progress updates
 pub open spec fn is_copy_event(e: Event, out: Inode) -> bool { is_write_on(e, out) || e is SendCopied }
 pub open spec fn ext_copy(t0: Seq<Event>, t1: Seq<Event>, out: Inode) -> bool {
-    ext(t0, t1) && forall|k: int| t0.len() <= k < t1.len() ==> is_copy_event(#[trigger] t1[k], out)
+    tr_ext(t0, t1) && forall|k: int| t0.len() <= k < t1.len() ==> is_copy_event(#[trigger] t1[k], out)
 }
